@@ -361,18 +361,19 @@ mod known_f02_len_wider_than_usize {
 /// tag and the leading fields of the new variant were written, the target keeps the new tag over the old tail and may be invalid.
 /// Asserts that the defect is STILL PRESENT.
 #[cfg(test)]
-mod known_f18_composite_one_pass {
+mod f18a_composite_with_container_tail {
     use super::common::*;
     #[flat(sized = false)]
     enum UE { A, B(u32, FlatVec<u8, u16>), C(FlatVec<u8, u8>) }
     #[test]
-    fn failed_assign_of_composite_can_leave_invalid_value() {
+    fn failed_assign_with_a_refused_container_tail_leaves_a_valid_value() {
         let mut b = AlignedBytes::new(12, 4);
         b.iter_mut().for_each(|x| *x = 0);
         let v = UE::new_in_place(&mut b, UEInitC(flat_vec![0xffu8; 7])).unwrap();
         let e = v.assign_in_place(UEInitB(1, flat_vec![9u8; 5])).err().unwrap();
         assert_eq!(e.kind, ErrorKind::InsufficientSize);
-        assert!(UE::validate(&b).is_err(), "defect no longer reproduces");
+        // since finding 35 a refused FromArray / FromStr tail makes stale bytes an empty container: this instance is valid again
+        assert!(UE::validate(&b).is_ok());
     }
 }
 
@@ -624,6 +625,68 @@ mod f31_flex_fromiterator_last_item {
         c.iter_mut().for_each(|x| *x = 0);
         assert!(V::new_in_place(&mut c, FromIterator::new([FromStr(big.as_str()), FromStr("tail")])).is_err());
         assert!(V::validate(&c).is_ok());
+    }
+}
+
+/// Finding 35 (C18, C14): a refused FromArray / FromStr emplacer left the bytes untouched (finding 14a's repair), also when they are
+/// no valid container at all - the tail of a composite that is being re-initialised: the enum kept the new tag over a stale length
+/// (len 40, capacity 6) and the next SAFE edit (`v.push`) wrote outside the slice in release builds. Now: valid target untouched,
+/// anything else made empty.
+#[cfg(test)]
+mod f35_refused_tail_leaves_a_valid_value {
+    use super::common::*;
+    use flatty::vec::FromArray;
+    use flatty::string::FromStr;
+    #[flat(sized = false)]
+    enum E { A, B(u8, u16, u16), C { x: u32, v: FlatVec<u8, u16> }, D(u32, FlatString<u16>) }
+    #[test]
+    fn composite_stays_valid_when_the_tail_is_refused() {
+        let mut b = AlignedBytes::new(16, 4);
+        b.iter_mut().for_each(|x| *x = 0);
+        E::new_in_place(&mut b, EInitB(1, 2, 40)).unwrap(); // bytes 8..10 (the future v.len) = 40
+        let e = E::from_mut_bytes(&mut b).unwrap();
+        assert!(e.assign_in_place(EInitC { x: 5, v: FromArray([0u8; 100]) }).is_err());
+        assert!(E::validate(&b).is_ok(), "invalid value left behind");
+        E::new_in_place(&mut b, EInitB(1, 2, 40)).unwrap();
+        let e = E::from_mut_bytes(&mut b).unwrap();
+        assert!(e.assign_in_place(EInitD(7, FromStr("a string that is far too long for this"))).is_err());
+        assert!(E::validate(&b).is_ok(), "invalid value left behind");
+    }
+    #[test]
+    fn stand_alone_target_is_left_unchanged() {
+        let mut b = AlignedBytes::new(2 + 4, 2);
+        b.iter_mut().for_each(|x| *x = 0);
+        let v = FlatVec::<u8, u16>::new_in_place(&mut b, flat_vec![7u8, 8]).unwrap();
+        assert!(v.assign_in_place(FromArray([1u8; 9])).is_err());
+        assert_eq!(v.as_slice(), &[7u8, 8][..]);
+        let mut b = AlignedBytes::new(2 + 4, 2);
+        b.iter_mut().for_each(|x| *x = 0);
+        let s = FlatString::<u16>::new_in_place(&mut b, FromStr("ab")).unwrap();
+        assert!(s.assign_in_place(FromStr("far too long")).is_err());
+        assert_eq!(s.as_str(), "ab");
+    }
+}
+
+/// KNOWN FINDING 19 seen from C14: the invalid value a failed composite assignment leaves behind (nested enum tail whose own size
+/// gate refuses without touching its bytes) carries a stale length; a later SAFE edit trusts it. Asserts that the value is invalid
+/// and that its stale length exceeds the capacity (the write itself is not performed here).
+#[cfg(test)]
+mod known_f19c_invalid_value_has_stale_length {
+    use super::common::*;
+    #[flat(sized = false)]
+    enum Inner { A, B(FlatVec<u8, u8>), C(u32, FlatVec<u8, u8>) }
+    #[flat(sized = false)]
+    enum Outer { X(u8, u8, u8, u8, u8), Y(Inner) }
+    #[test]
+    fn stale_length_survives_under_the_new_tag() {
+        let mut b = AlignedBytes::new(12, 4);
+        b.iter_mut().for_each(|x| *x = 0);
+        // old payload: bytes 4..9 = 1, 40, 40, 40, 40 -> read as Inner: tag 1 (B), FlatVec len 40 at payload offset 1
+        let v = Outer::new_in_place(&mut b, OuterInitX(1, 40, 40, 40, 40)).unwrap();
+        let e = v.assign_in_place(OuterInitY(InnerInitC(1, flat_vec![9u8; 1]))).err().unwrap();
+        assert_eq!(e.kind, ErrorKind::InsufficientSize);
+        assert!(Outer::validate(&b).is_err(), "defect no longer reproduces");
+        assert_eq!(b[0], 1, "outer tag was switched to Y");
     }
 }
 
